@@ -102,6 +102,12 @@ def shard_kind(kind, tier):
                         t = obs_of(mac(key, pat(6, 0, a + b + c + d)))
                         cases.append(([new, "minput s0 %s" % P(6, 0, a), "minput s0 %s" % P(6, a, b), "minput s0 %s" % P(6, a + b, c),
                                        "minput s0 %s" % P(6, a + b + c, d), "mraw s0"], ["-", "-", "-", "-", "-", t], {"nt": True}))
+    # every message length 0..=2B+9 in one call (padding / length-encoding classes of the inner hash, one key)
+    key = pat(5, 0, 7)
+    new = "mnew s0 hmac %s %s" % (kind, P(5, 0, 7))
+    for ml in range(0, 2 * B + 10):
+        t = obs_of(mac(key, pat(6, 0, ml)))
+        cases.append(([new, "minput s0 %s" % (P(6, 0, ml) if ml else "h:"), "mraw s0"], ["-", "-", t], {"nt": True}))
     # multi-block single calls (5..20 whole blocks with -1/0/+1 tails, fresh or after one buffered byte) and keys of many blocks:
     # every batch size and tail size of a multi-block compression loop, through the inner hash, the key hash and the outer hash
     key = pat(5, 0, 7)
